@@ -22,7 +22,7 @@ MANIFEST = dict(
     note="Method objects handed to add_methods of a *prefixed* registry are not part of the corpus (the statement does not say whether the registry prefix applies to them). Functions are told apart by the value they return.",
 )
 BOUNDS = {
-    'quick': {'chains': 'depth 1..3, prefixes over {None, "", "a", "a.b"}, 10 registration forms', 'histories': '<= 2 operations over 13 (operation, registry) pairs', 'probe': 'symbolic string, unbounded'},
+    'quick': {'chains': 'depth 1..3, prefixes over {None, "", "a", "a.b"}, 12 registration forms (incl. a view with inherited / static / class methods)', 'histories': '<= 2 operations over 13 (operation, registry) pairs', 'probe': 'symbolic string, unbounded'},
     'thorough': {'chains': 'as quick', 'histories': '<= 3 operations', 'probe': 'as quick'},
 }
 STUBS = ['S1', 'S4', 'S5', 'S13']
@@ -32,7 +32,7 @@ BUDGET = {'quick': 40.0, 'thorough': 120.0}
 
 PREFIXES = (None, '', 'a', 'a.b')
 FORMS = (('add',), ('addname', 'a'), ('addname', 'f'), ('addname', 'a.f'), ('addname', ''), ('addfn',), ('method',),
-         ('view', None), ('view', 'v'), ('view', 'a'))
+         ('view', None), ('view', 'v'), ('view', 'a'), ('viewx', None), ('viewx', 'v'))
 HOPS = ('add', 'addname_f', 'addname_g', 'addfn', 'view', 'viewp', 'dup')
 
 
@@ -50,7 +50,7 @@ def obligations(tier):
                 for form in FORMS:
                     if form[0] == 'method' and any(prefs):
                         continue
-                    if disp == 'async' and depth == 3 and form[0] not in ('add', 'view'):
+                    if disp == 'async' and depth == 3 and form[0] not in ('add', 'view', 'viewx'):
                         continue
                     obs.append({'h': 'chain', 'disp': disp, 'prefixes': list(prefs), 'form': list(form)})
         maxn = 2 if tier == 'quick' else 3
@@ -85,6 +85,19 @@ def _view(tag, is_async):
     kw = 'async def' if is_async else 'def'
     exec(f"class View(ViewMixin):\n    attr = 5\n    {kw} pub(self):\n        return {tag!r}\n"
          f"    {kw} _priv(self):\n        return 'PRIVATE'\n    {kw} __dunder__(self):\n        return 'DUNDER'\n", ns)
+    return ns['View']
+
+
+def _viewx(is_async):
+    """A view with an inherited public method, a static method, a class method, a nested class (a public callable: exposed,
+    though calling it fails) and private / non-callable members."""
+    import pjrpc.server
+    ns = {'ViewMixin': pjrpc.server.ViewMixin}
+    kw = 'async def' if is_async else 'def'
+    exec(f"class Base(ViewMixin):\n    {kw} inh(self):\n        return 'T-inh'\n    {kw} _hidden(self):\n        return 'PRIVATE'\n"
+         f"class View(Base):\n    attr = 5\n    data = [1]\n    {kw} pub(self):\n        return 'T-pub'\n"
+         f"    @staticmethod\n    {kw} st():\n        return 'T-st'\n    @classmethod\n    {kw} cm(cls):\n        return 'T-cm'\n"
+         f"    {kw} _priv(self):\n        return 'PRIVATE'\n", ns)
     return ns['View']
 
 
@@ -137,6 +150,10 @@ def h_chain(ob):
         elif form[0] == 'method':
             inner.add_methods(Method(_fn('g', 'T-g', is_async), name='x.y'))
             ref['x.y'] = 'T-g'
+        elif form[0] == 'viewx':
+            inner.view(_viewx(is_async), prefix=form[1])
+            for nm in ('inh', 'pub', 'st', 'cm'):
+                ref[_join(*chain, form[1], nm)] = 'T-' + nm
         else:
             inner.view(_view('T-pub', is_async), prefix=form[1])
             ref[_join(*chain, form[1], 'pub')] = 'T-pub'
